@@ -158,6 +158,7 @@ type World struct {
 	InstEnt       map[int]*Entry
 	Anomaly       []string
 	inPreBuild    atomic.Bool
+	nilClosesBase int64
 
 	// HoldArgs (C14): instances keep what they were constructed with alive, the
 	// ledger keeps no strong reference to built-in arguments.
@@ -172,8 +173,11 @@ func NewWorld(cfg *Config) (*World, error) {
 		return nil, err
 	}
 	return &World{Cfg: cfg, M: m, Count: map[int]int{}, Faults: map[[2]int]Fault{}, CloseErr: map[int]error{},
-		Ctors: map[int]any{}, InstEnt: map[int]*Entry{}}, nil
+		Ctors: map[int]any{}, InstEnt: map[int]*Entry{}, nilClosesBase: NilCloses.Load()}, nil
 }
+
+// NilCloses returns how often Close() was called on a nil pointer since this world was made.
+func (w *World) NilCloses() int64 { return NilCloses.Load() - w.nilClosesBase }
 
 // SetGate installs (or, with nil, removes) the scheduling hook called at the
 // points where godi calls harness code.
